@@ -843,7 +843,12 @@ fn fields(f: &syn::Fields) -> Option<String> {
 }
 
 pub fn item(ts: TokenStream) -> Option<String> {
-    let it: syn::Item = syn::parse2(ts).ok()?;
+    let it: syn::Item = syn::parse2(ts.clone()).ok()?;
+    // an annotated impl is emitted again token for token (F38), everything else as syn prints it: an impl that syn would print
+    // differently from how it is written (`fn f(self,) -> X where { .. }`) cannot be split into items again by the comparer
+    if matches!(it, syn::Item::Impl(_)) && crate::flatten(it.to_token_stream()) != crate::flatten(ts) {
+        return no(line!());
+    }
     match &it {
         syn::Item::Struct(s) => Some(format!(
             "(struct {} {} {} {} {})",
